@@ -264,6 +264,13 @@ theorem doUnsubFn_ids {w : World} (h : IdsOK w) (c e f : Nat) : IdsOK (doUnsubFn
     | exact removeSub_ids h c e _
     | exact h.tok _ rfl rfl rfl rfl
 
+theorem doUnsubR_ids {w : World} (h : IdsOK w) (c e f r : Nat) : IdsOK (doUnsubR w c e f r) := by
+  unfold doUnsubR
+  repeat' split
+  all_goals first
+    | exact removeSub_ids h c e _
+    | exact h.tok _ rfl rfl rfl rfl
+
 theorem openDisp_ids {w : World} (h : IdsOK w) (ct : CAttr) (c e : Nat) (a : List Nat) : IdsOK (openDisp w ct c e a) := by
   unfold openDisp
   simp only []
@@ -290,6 +297,25 @@ theorem doGsub_ids {w : World} (h : IdsOK w) (e c : Nat) (add : Bool) : IdsOK (d
   repeat' split
   all_goals exact h.tok _ rfl rfl rfl rfl
 
+theorem doSubR_ids {w : World} (h : IdsOK w) (c e t r : Nat) : IdsOK (doSubR w c e t r) := by
+  unfold doSubR
+  split
+  next ct tm _ _ =>
+    split
+    · exact h.tok .bad rfl rfl rfl rfl
+    · by_cases hu : w.used.contains t = true
+      · simp only [hu, if_true]; exact h.tok .dup rfl rfl rfl rfl
+      · have hf : t ∉ w.used := by simpa using hu
+        have hu' : w.used.contains t = false := by simpa using hu
+        simp only [hu', Bool.false_eq_true, if_false]
+        have h1 := h.more_used t
+        have h2 := h.add ⟨c, e, t, tm.bound, tm.fn, false⟩ hf
+        repeat' split
+        all_goals first
+          | exact h1.tok _ rfl rfl rfl rfl
+          | exact h2.tok _ rfl rfl rfl rfl
+  next => exact h.tok .bad rfl rfl rfl rfl
+
 theorem doGsubH_ids {w : World} (h : IdsOK w) (e c t : Nat) : IdsOK (doGsubH w e c t) := by
   unfold doGsubH
   repeat' split
@@ -308,6 +334,8 @@ theorem execOp_ids {w : World} (h : IdsOK w) (op : SOp) : IdsOK (execOp w op) :=
   · exact doGsub_ids h ..
   · exact doGsub_ids h ..
   · exact doGsubH_ids h ..
+  · exact doSubR_ids h ..
+  · exact doUnsubR_ids h ..
 
 
 theorem closeDisp_ids {w : World} (h : IdsOK w) (g : List GTok) (rest : List Frame) (p c e : Nat) (snap : List Nat) (lt : Bool) :
@@ -417,6 +445,13 @@ theorem doUnsubFn_fix {w : World} (h : FixOK w) (c e f : Nat) : FixOK (doUnsubFn
     | exact removeSub_fix h ..
     | exact h.of_eq rfl rfl rfl
 
+theorem doUnsubR_fix {w : World} (h : FixOK w) (c e f r : Nat) : FixOK (doUnsubR w c e f r) := by
+  unfold doUnsubR
+  repeat' split
+  all_goals first
+    | exact removeSub_fix h ..
+    | exact h.of_eq rfl rfl rfl
+
 theorem openDisp_fix {w : World} (h : FixOK w) (ct : CAttr) (c e : Nat) (a : List Nat) : FixOK (openDisp w ct c e a) := by
   have hc := h.cfg
   unfold openDisp
@@ -440,6 +475,14 @@ theorem doGsub_fix {w : World} (h : FixOK w) (e c : Nat) (add : Bool) : FixOK (d
   repeat' split
   all_goals exact h.of_eq rfl rfl rfl
 
+theorem doSubR_fix {w : World} (h : FixOK w) (c e t r : Nat) : FixOK (doSubR w c e t r) := by
+  unfold doSubR
+  split
+  · simp only []
+    repeat' split
+    all_goals exact h.of_eq rfl rfl rfl
+  · exact h.of_eq rfl rfl rfl
+
 theorem doGsubH_fix {w : World} (h : FixOK w) (e c t : Nat) : FixOK (doGsubH w e c t) := by
   unfold doGsubH
   repeat' split
@@ -458,6 +501,8 @@ theorem execOp_fix {w : World} (h : FixOK w) (op : SOp) : FixOK (execOp w op) :=
   · exact doGsub_fix h ..
   · exact doGsub_fix h ..
   · exact doGsubH_fix h ..
+  · exact doSubR_fix h ..
+  · exact doUnsubR_fix h ..
 
 theorem closeDisp_fix {w : World} (h : FixOK w) (g : List GTok) (rest : List Frame) (p c e : Nat) (snap : List Nat) (lt : Bool) :
     FixOK (closeDisp w g rest p c e snap lt) := by
@@ -712,6 +757,13 @@ theorem doUnsubFn_reg {w : World} (h : RegOK w) (c e f : Nat) : RegOK (doUnsubFn
     | exact removeSub_reg h ..
     | exact h.of_eq rfl rfl rfl
 
+theorem doUnsubR_reg {w : World} (h : RegOK w) (c e f r : Nat) : RegOK (doUnsubR w c e f r) := by
+  unfold doUnsubR
+  repeat' split
+  all_goals first
+    | exact removeSub_reg h ..
+    | exact h.of_eq rfl rfl rfl
+
 theorem openDisp_reg {w : World} (h : RegOK w) (ct : CAttr) (c e : Nat) (a : List Nat) : RegOK (openDisp w ct c e a) := by
   unfold openDisp
   simp only []
@@ -742,6 +794,18 @@ theorem doGsub_reg {w : World} (h : RegOK w) (e c : Nat) (add : Bool) : RegOK (d
         exact ⟨fun hh => hh.resolve_left hne, Or.inr⟩
   · exact h.of_eq rfl rfl rfl
 
+theorem doSubR_reg {w : World} (h : RegOK w) (c e t r : Nat) : RegOK (doSubR w c e t r) := by
+  unfold doSubR
+  split
+  · rename_i ct tm _ _
+    simp only []
+    have hA := h.add_plain ⟨c, e, t, tm.bound, tm.fn, false⟩ (by simp)
+    repeat' split
+    all_goals first
+      | exact h.of_eq rfl rfl rfl
+      | exact hA.of_eq rfl rfl rfl
+  · exact h.of_eq rfl rfl rfl
+
 theorem doGsubH_reg {w : World} (h : RegOK w) (e c t : Nat) : RegOK (doGsubH w e c t) := by
   unfold doGsubH
   repeat' split
@@ -760,6 +824,8 @@ theorem execOp_reg {w : World} (h : RegOK w) (op : SOp) : RegOK (execOp w op) :=
   · exact doGsub_reg h ..
   · exact doGsub_reg h ..
   · exact doGsubH_reg h ..
+  · exact doSubR_reg h ..
+  · exact doUnsubR_reg h ..
 
 theorem stepDisp_reg {w : World} (h : RegOK w) (rest : List Frame) (p c e : Nat) (a snap called : List Nat) :
     RegOK (stepDisp w rest p c e a snap called) := by
@@ -1025,6 +1091,13 @@ theorem doUnsubFn_fr {w : World} (h : FrOK w) (c e f : Nat) : FrOK (doUnsubFn w 
     | exact removeSub_fr h ..
     | exact h.tok _ rfl rfl rfl rfl
 
+theorem doUnsubR_fr {w : World} (h : FrOK w) (c e f r : Nat) : FrOK (doUnsubR w c e f r) := by
+  unfold doUnsubR
+  repeat' split
+  all_goals first
+    | exact removeSub_fr h ..
+    | exact h.tok _ rfl rfl rfl rfl
+
 theorem openDisp_fr {w : World} (h : FrOK w) (ct : CAttr) (c e : Nat) (a : List Nat) : FrOK (openDisp w ct c e a) := by
   unfold openDisp
   simp only []
@@ -1048,6 +1121,14 @@ theorem doGsub_fr {w : World} (h : FrOK w) (e c : Nat) (add : Bool) : FrOK (doGs
     | exact h.tok _ rfl rfl rfl rfl
     | (cases add <;> exact h.tok _ rfl rfl rfl rfl)
 
+theorem doSubR_fr {w : World} (h : FrOK w) (c e t r : Nat) : FrOK (doSubR w c e t r) := by
+  unfold doSubR
+  split
+  · simp only []
+    repeat' split
+    all_goals exact h.tok _ rfl rfl rfl rfl
+  · exact h.tok _ rfl rfl rfl rfl
+
 theorem doGsubH_fr {w : World} (h : FrOK w) (e c t : Nat) : FrOK (doGsubH w e c t) := by
   unfold doGsubH
   repeat' split
@@ -1066,6 +1147,8 @@ theorem execOp_fr {w : World} (h : FrOK w) (op : SOp) : FrOK (execOp w op) := by
   · exact doGsub_fr h ..
   · exact doGsub_fr h ..
   · exact doGsubH_fr h ..
+  · exact doSubR_fr h ..
+  · exact doUnsubR_fr h ..
 
 theorem stepDisp_fr {w : World} (h : FrOK w) (hc : w.cfg = Cfg.fixed) (rest : List Frame) (p c e : Nat)
     (a snap called : List Nat) (hst : w.stack = .disp p c e a snap called :: rest) :
@@ -1262,6 +1345,13 @@ theorem doUnsubFn_sub {w : World} (h : SubOK w) (c e f : Nat) : SubOK (doUnsubFn
     | exact removeSub_sub h ..
     | exact h.tok _ rfl rfl (fun _ hl => hl) (fun _ hx => hx) rfl
 
+theorem doUnsubR_sub {w : World} (h : SubOK w) (c e f r : Nat) : SubOK (doUnsubR w c e f r) := by
+  unfold doUnsubR
+  repeat' split
+  all_goals first
+    | exact removeSub_sub h ..
+    | exact h.tok _ rfl rfl (fun _ hl => hl) (fun _ hx => hx) rfl
+
 theorem openDisp_sub {w : World} (h : SubOK w) (ct : CAttr) (c e : Nat) (a : List Nat) : SubOK (openDisp w ct c e a) := by
   unfold openDisp
   simp only []
@@ -1287,6 +1377,23 @@ theorem doGsub_sub {w : World} (h : SubOK w) (e c : Nat) (add : Bool) : SubOK (d
     | exact h.tok _ rfl rfl (fun _ hl => hl) (fun _ hx => hx) rfl
     | (cases add <;> exact h.tok _ rfl rfl (fun _ hl => hl) (fun _ hx => hx) rfl)
 
+theorem doSubR_sub {w : World} (h : SubOK w) (c e t r : Nat) : SubOK (doSubR w c e t r) := by
+  unfold doSubR
+  split
+  next ct tm _ _ =>
+    split
+    · exact h.tok .bad rfl rfl (fun _ hl => hl) (fun _ hx => hx) rfl
+    · by_cases hu : w.used.contains t = true
+      · simp only [hu, if_true]; exact h.tok .dup rfl rfl (fun _ hl => hl) (fun _ hx => hx) rfl
+      · have hf : t ∉ w.used := by simpa using hu
+        have hu' : w.used.contains t = false := by simpa using hu
+        simp only [hu', Bool.false_eq_true, if_false]
+        repeat' split
+        all_goals first
+          | exact h.tok _ rfl rfl (fun _ hl => hl) (fun _ hx => List.mem_cons_of_mem _ hx) rfl
+          | exact h.add ⟨c, e, t, tm.bound, tm.fn, false⟩ hf rfl rfl rfl
+  next => exact h.tok .bad rfl rfl (fun _ hl => hl) (fun _ hx => hx) rfl
+
 theorem doGsubH_sub {w : World} (h : SubOK w) (e c t : Nat) : SubOK (doGsubH w e c t) := by
   unfold doGsubH
   repeat' split
@@ -1305,6 +1412,8 @@ theorem execOp_sub {w : World} (h : SubOK w) (op : SOp) : SubOK (execOp w op) :=
   · exact doGsub_sub h ..
   · exact doGsub_sub h ..
   · exact doGsubH_sub h ..
+  · exact doSubR_sub h ..
+  · exact doUnsubR_sub h ..
 
 theorem stepDisp_sub {w : World} (h : SubOK w) (hfr : FrOK w) (hc : w.cfg = Cfg.fixed) (rest : List Frame) (p c e : Nat)
     (a snap called : List Nat) (hst : w.stack = .disp p c e a snap called :: rest) :
@@ -1497,6 +1606,13 @@ theorem doUnsubFn_q {w : World} (h : QOK w) (c e f : Nat) : QOK (doUnsubFn w c e
     | exact removeSub_q h ..
     | exact h.tok _ (same_queues w) rfl
 
+theorem doUnsubR_q {w : World} (h : QOK w) (c e f r : Nat) : QOK (doUnsubR w c e f r) := by
+  unfold doUnsubR
+  repeat' split
+  all_goals first
+    | exact removeSub_q h ..
+    | exact h.tok _ (same_queues w) rfl
+
 theorem openDisp_q {w : World} (h : QOK w) (ct : CAttr) (c e : Nat) (a : List Nat) : QOK (openDisp w ct c e a) := by
   unfold openDisp
   simp only []
@@ -1601,6 +1717,14 @@ theorem doGsub_q {w : World} (h : QOK w) (e c : Nat) (add : Bool) : QOK (doGsub 
   repeat' split
   all_goals exact h.tok _ (same_queues w) rfl
 
+theorem doSubR_q {w : World} (h : QOK w) (c e t r : Nat) : QOK (doSubR w c e t r) := by
+  unfold doSubR
+  split
+  · simp only []
+    repeat' split
+    all_goals exact h.tok _ (same_queues w) rfl
+  · exact h.tok _ (same_queues w) rfl
+
 theorem doGsubH_q {w : World} (h : QOK w) (e c t : Nat) : QOK (doGsubH w e c t) := by
   unfold doGsubH
   repeat' split
@@ -1619,6 +1743,8 @@ theorem execOp_q {w : World} (h : QOK w) (op : SOp) : QOK (execOp w op) := by
   · exact doGsub_q h ..
   · exact doGsub_q h ..
   · exact doGsubH_q h ..
+  · exact doSubR_q h ..
+  · exact doUnsubR_q h ..
 
 theorem stepDisp_q {w : World} (h : QOK w) (rest : List Frame) (p c e : Nat) (a snap called : List Nat) :
     QOK (stepDisp w rest p c e a snap called) := by
